@@ -908,11 +908,12 @@ class Acceptor(object):
         args, kwargs = [], {}
         gi = 0
         for tok in d["tokens"]:
-            if tok[0] != "fld":
+            if tok[0] not in ("fld", "opt"):
                 continue
             gi += 1
             try:
-                val = W.convert_value(tok[2], m.group(gi), d["matcher"])
+                raw = m.group(gi)
+                val = None if raw is None else W.convert_value(tok[2], raw, d["matcher"])
             except Exception:
                 return None
             if tok[1]:
@@ -926,9 +927,9 @@ class Acceptor(object):
             return False
         gi = 0
         for tok in d["tokens"]:
-            if tok[0] == "fld":
+            if tok[0] in ("fld", "opt"):
                 gi += 1
-                if tok[2] == "Color" and m.group(gi) == "BAD":
+                if tok[0] == "fld" and tok[2] == "Color" and m.group(gi) == "BAD":
                     return True
         return False
 
